@@ -308,6 +308,13 @@ impl Property for C08 {
                 (1 << 31) - 1, 1 << 31, (1 << 32) - 1, 1 << 32, 1 << 40
             ]),
             1 => 301u64..=(1 << 40),
+            // "for every axis length": the resolver takes any usize, also lengths no surface can
+            // have; the arithmetic around 2^63 and 2^64 is where a 64-bit intermediate gives out
+            1 => proptest::sample::select(vec![
+                (1u64 << 62) - 1, 1 << 62, (1 << 63) - 2, (1 << 63) - 1, 1 << 63, (1 << 63) + 1, (1 << 63) + 2,
+                u64::MAX / 3, u64::MAX - 2, u64::MAX - 1, u64::MAX
+            ]),
+            1 => (1u64 << 40)..=u64::MAX,
         ];
         (n, proptest::sample::select(ALL_TYS.to_vec()), form_strategy())
             .prop_flat_map(|(n, ty, form)| {
@@ -327,7 +334,7 @@ impl Property for C08 {
 
     fn rule(&self) -> String {
         "sweep: every selector form x every value of i8/u8 (both bounds) x axis lengths 0..=40,127,128,129,255,256,300 (exhaustive); \
-         generated: axis length up to 2^40, all 10 integer types, bounds biased to {MIN, -n-1, -n, -1, 0, n-1, n, n+1, 2n, type widths, MAX} plus uniform. \
+         generated: axis length up to 2^64-1 (two cases in ten above 2^40, biased to 2^62, 2^63 +-2 and 2^64-1), all 10 integer types, bounds biased to {MIN, -n-1, -n, -1, 0, n-1, n, n+1, 2n, type widths, MAX} plus uniform. \
          Every case is compared with an i128 Python-slice reference and re-resolved in every other integer type that can hold the same bounds. \
          non-trivial = inclusive form, or a negative bound, or a bound outside [-n, n)".into()
     }
@@ -335,7 +342,7 @@ impl Property for C08 {
     fn assumptions(&self) -> Vec<String> {
         vec![
             "reference semantics: exclusive bounds as Python slice.indices(); inclusive end e selects through element e (negative e counts from the end; an element before index 0 selects nothing; e >= n clamps to the axis end); single index valid iff -n <= i < n".into(),
-            "axis lengths above 2^40 are not generated (surfaces of that size cannot be allocated)".into(),
+            "axis lengths above 2^40 cannot belong to an allocated surface; they are generated all the same because the statement quantifies over every axis length and view_bounds accepts any usize (64-bit usize assumed)".into(),
         ]
     }
 
